@@ -397,6 +397,7 @@ class Builder(ExprMixin):
         preds = self.run_cleanups(preds, 0)
         self.cur_stmt = st
         fr.ret_vals.append(v)
+        preds = self.node("ret", preds, value=v)
         self.link_all(preds, fr.ret_join)
         return set()
 
@@ -444,7 +445,15 @@ class Builder(ExprMixin):
         return outs
 
     def refine(self, cond, arm):
-        """Record simple facts implied by taking a branch (None-ness of a local)."""
+        """Record simple facts implied by taking a branch (None-ness of a local;
+        a parameter known to be a collection of the receiver's class)."""
+        if arm and cond.kind == "call" and cond.args[0] == "isinstance" and len(cond.args[2]) == 2:
+            obj, klass = cond.args[2]
+            if obj.kind == "param" and klass.kind == "cls":
+                inst = Val("inst", klass.args[0], "root", "P:" + str(obj.args[0]))
+                for k, v in list(self.fr.env.items()):
+                    if v == obj:
+                        self.fr.env[k] = inst
         if cond.kind == "cmp" and cond.args[0] in ("is", "is not") and cond.args[2] == Val("const", None):
             is_none = (cond.args[0] == "is") == arm
             tgt = cond.args[1]
